@@ -115,7 +115,7 @@ pub fn check_error(what: &str, s: &str, e: &SemverError, st: &mut Stats) -> Resu
         let narr = miette::NarratableReportHandler::new().render_report(&mut out, e).is_ok();
         let mut js = String::new();
         let jsr = miette::JSONReportHandler::new().render_report(&mut js, e).is_ok();
-        let dbg = format!("{:?}", miette::Report::new(e.clone()));
+        let dbg = format!("{:?} {:?} {:#?}", miette::Report::new(e.clone()), e, e);
         let disp = e.to_string();
         let src = std::error::Error::source(e).map(|s| s.to_string());
         (code, span_ok, read_ok, narr && jsr && !dbg.is_empty() && !disp.is_empty(), src)
